@@ -232,6 +232,14 @@ where
             obs.none_again = true;
         }
     }
+    // spanned() must yield exactly the (item, span) pairs of manual iteration (C14), on char boundaries (C04)
+    if obs.ended && !mode.partial && !mode.count_only && !mode.trace && mode.max_items == 0 {
+        let pairs: Vec<(Option<usize>, usize, usize)> = Lexer::<T>::new(src).spanned().take(bound).map(|(r, sp)| (r.ok().map(|t| t.id()), sp.start, sp.end)).collect();
+        let manual: Vec<(Option<usize>, usize, usize)> = obs.items.iter().map(|i| (i.kind, i.start, i.end)).collect();
+        if pairs != manual {
+            obs.anomalies.push(format!("spanned() pairs {pairs:?} differ from manual iteration {manual:?}"));
+        }
+    }
     if mode.trace {
         for e in logos::verif::take() {
             match e {
